@@ -189,8 +189,23 @@ def select_all_markers(
     while len(process_dict) > 0:
         process_dict = winnow_process_dict(process_dict)
 
+    # the workers fill output_dict and summary_log as they finish;
+    # return the entries in the order of parent_list so that the
+    # result does not depend on which worker finished first
     output_dict = dict(output_dict)
     summary_log = dict(summary_log)
+
+    output_dict = {
+        parent: output_dict[parent]
+        for parent in parent_list}
+
+    log_key_list = [
+        'None' if parent is None else f'{parent[0]}/{parent[1]}'
+        for parent in parent_list]
+    summary_log = {
+        log_key: summary_log[log_key]
+        for log_key in log_key_list
+        if log_key in summary_log}
 
     return output_dict, summary_log
 
